@@ -46,7 +46,13 @@ func (m *vMonC02) AfterTx(h *vHist, o *vTxObs) {
 			case *dtypes.MsgDepositDeployment:
 				k := vDepAcctKey(mm.ID)
 				if cur, ok := m.deposits[k]; ok {
-					m.deposits[k] = cur.Add(mm.Amount.Amount)
+					// only coins of the account's own denomination are
+					// deposits "into it"
+					if a, oka := pre.Accts[k]; oka && a.Balance.Denom != mm.Amount.Denom {
+						m.res.Count("accepted_deposit_in_another_denomination", 1)
+					} else {
+						m.deposits[k] = cur.Add(mm.Amount.Amount)
+					}
 				}
 			}
 		}
